@@ -30,6 +30,19 @@ def hConcRefresh : Handler := fun impl => do
     | _ => "na"
   return { model := "0", oracle := oracle, label := "refresh-vs-6-readers" }
 
-def handlers : List (String × Handler) := [ ("concget", hConcGet), ("concroute", hConcRoute), ("concrefresh", hConcRefresh) ]
+/-- conccopy (C20): GET and POST for one url through one router at once; the copy rule mirrors POST and PUT only. The rule
+    choice is a function of the request alone (Props.C20.copy_choice: first matching enabled copy rule that allows the method) -/
+def hConcCopy : Handler := fun impl => do
+  let _k ← pNat
+  let oracle := match impl with
+    | [n, p, c, w, posts] =>
+      if w ≠ "0" then "bad:C20:a-request-was-copied-although-the-copy-rule-excludes-its-method"
+      else if c ≠ posts then "bad:C20:a-request-the-copy-rule-matches-was-not-copied-exactly-once"
+      else if p ≠ n then "bad:C20:a-request-did-not-reach-the-proxy-destination"
+      else "ok"
+    | _ => "na"
+  return { model := "1600 1600 800 0 800", oracle := oracle, label := "get-vs-post-8" }
+
+def handlers : List (String × Handler) := [ ("concget", hConcGet), ("concroute", hConcRoute), ("concrefresh", hConcRefresh), ("conccopy", hConcCopy) ]
 
 end H.ConcStress
